@@ -102,6 +102,12 @@ CHECKS['C14'] = dict(technique='runtime monitoring: exhaustive enumeration of ma
                   'under every kind of label are compiled; for every difficulty the emitted copies must satisfy the exactly-one / right-values / default-on-bits conditions.',
              note='Exhaustive only in the mask dimension; flag sets and statements are sampled.',
              design='3/C14')
+CHECKS['C18'] = dict(technique='runtime monitoring: offline checker of the debug-info document against offsets/registers recomputed from the written binary by an independent layout parser',
+             text='Exploration. Generated files of every format are compiled with --output-debug-info; instruction offsets, end offsets and label offsets of every exported script are compared with the '
+                  'binary (independent layout parser); dedicated workloads check label times against the C13 label model and label positions between the surrounding marker instructions, every local\'s '
+                  'bound-to register against the register actually encoded in a marker instruction that uses it (ANM, EoSD..StB ECL, nested blocks, times loops), and const values against the C11 evaluator.',
+             note='MSG files with unreferenced scripts are skipped (not delimitable in the binary). Only finite const values judged.',
+             design='3/C18')
 WIP = {}  # property -> reason (not claimed)
 
 def main():
